@@ -80,7 +80,7 @@ def case_st(draw):
             p = {"indexing": "label", "indices": draw(st.lists(st.sampled_from(labs), min_size=0, max_size=5))}
         else:
             p = {"indexing": "position", "indices": draw(st.lists(st.integers(-n, n - 1), min_size=0, max_size=5))}
-        p["as"] = draw(st.sampled_from(["list", "array"]))
+        p["as"] = draw(st.sampled_from(["list", "array", "tuple"]))
     elif op == "compress_axis":
         p["mask"] = draw(st.lists(st.booleans(), min_size=n, max_size=n))
     elif op == "compress":
@@ -216,7 +216,7 @@ def run_case(case):
             pos = [i % n for i in ind]          # negative positions count from the end, as in NumPy
             if any(i < 0 for i in ind):
                 cl.add("take_axis:negative-position")
-        arg = list(ind) if p["as"] == "list" else (core.label_array(ind) if p["indexing"] == "label" and ind else np.array(ind, dtype=int if p["indexing"] == "position" or not ind else None))
+        arg = list(ind) if p["as"] == "list" else tuple(ind) if p["as"] == "tuple" else (core.label_array(ind) if p["indexing"] == "label" and ind else np.array(ind, dtype=int if p["indexing"] == "position" or not ind else None))
         res = lib(lambda: a.take_axis(arg, axis=axis, indexing=p["indexing"]), what=what, sig=sig)
         compare(res, dims, newlabels(pos), take_expected(vals, ax, pos), what, sig)
         cl.add("take_axis:" + p["indexing"])
